@@ -5,8 +5,8 @@ package alt
 import (
 	"encoding/base64"
 	"fmt"
-	"math"
 	"reflect"
+	"strconv"
 	"time"
 
 	"github.com/ohler55/ojg"
@@ -15,6 +15,11 @@ import (
 // 23 for fraction in IEEE 754 which amounts to 7 significant digits. Use base
 // 10 so that numbers look correct when displayed in base 10.
 const fracMax = 10000000.0
+
+func widenFloat32(f32 float32) float64 {
+	f, _ := strconv.ParseFloat(strconv.FormatFloat(float64(f32), 'g', -1, 32), 64)
+	return f
+}
 
 func decompose(v any, opt *Options) any {
 	switch tv := v.(type) {
@@ -38,11 +43,10 @@ func decompose(v any, opt *Options) any {
 	case uint64:
 		v = int64(tv)
 	case float32:
-		// This small rounding makes the conversion from 32 bit to 64 bit
-		// display nicer.
-		f, i := math.Frexp(float64(tv))
-		f = float64(int64(f*fracMax)) / fracMax
-		v = math.Ldexp(f, i)
+		// Use the shortest decimal that identifies the float32 so that the
+		// conversion from 32 bit to 64 bit displays nicely without
+		// changing the value when converted back to a float32.
+		v = widenFloat32(tv)
 	case []any:
 		a := make([]any, len(tv))
 		for i, m := range tv {
@@ -101,11 +105,10 @@ func alter(v any, opt *Options) any {
 	case uint64:
 		v = int64(tv)
 	case float32:
-		// This small rounding makes the conversion from 32 bit to 64 bit
-		// display nicer.
-		f, i := math.Frexp(float64(tv))
-		f = float64(int64(f*fracMax)) / fracMax
-		v = math.Ldexp(f, i)
+		// Use the shortest decimal that identifies the float32 so that the
+		// conversion from 32 bit to 64 bit displays nicely without
+		// changing the value when converted back to a float32.
+		v = widenFloat32(tv)
 	case []any:
 		for i, m := range tv {
 			tv[i] = alter(m, opt)
